@@ -12,6 +12,7 @@ import PdshVerif.Dsh.SignalsOrder
 import PdshVerif.Dsh.SignalsExit
 import PdshVerif.Dsh.SignalsOutput
 import PdshVerif.Dsh.SignalsMask
+import PdshVerif.Dsh.SignalsClock
 import PdshVerif.Props.C03
 import PdshVerif.Props.C04
 
@@ -40,6 +41,19 @@ What is proved (for every `v`, `f`, `n`, every schedule and arrival time unless 
 * `double_int_aborts`
       not -b: an interrupt handled when `now − last_intr ≤ INTR_TIME` enters the same abort path; otherwise it
       enters the report branch, which sets `last_intr := now`;
+* `decision_depends_on_difference_only`, `window_at_any_clock`, `c_subtraction_wide_enough`   (`Dsh/SignalsClock.lean`)
+      the clock as an input: the step that takes the INTR_TIME decision (of ^C and of ^Z), records the instant of a
+      report, or reads the clock while listing commutes with moving the clock and `last_intr` by the same amount `k`, for
+      EVERY `k` (2^31, 2^32, 2^33 ...: the LTS keeps time in unbounded naturals); two states that agree except for their
+      stamps and have the same difference `now − last_intr` take the same decision; the C expression
+      `time(NULL) - last_intr > INTR_TIME` equals the model's test when evaluated in a signed type that holds both stamps
+      (`time_t`, 64 bits here) and `last_intr ≤ now`; narrowing the difference to `w` bits is harmless only while the
+      difference itself fits (`wrapTo_fits`), and the named witnesses show a 32-bit `int` failing at the instants 2^31,
+      2^32, 2^33 for the FIRST interrupt (difference = the whole clock, `last_intr` = 0).  The real dsh.c is run at those
+      clocks, with the one-second boundary straddling 2^31 and 2^32, by vlib/sigthread.py (AT_CLOCK).  `c_test_any_order`
+      (Dsh/SignalsClock.lean): also with the clock set BACK between the two interrupts the signed C difference (negative)
+      and the model's truncated difference (0) decide alike: abort / cancel (scenarios double-back5, cancel-back5).  Corner mirrored,
+      not a defect of practical interest: `last_intr` starts at 0, so at clock 0 and 1 a first ^C is "within INTR_TIME";
 * `erase_commutes`, `single_int_harmless`
       commutation of the S steps with all others on the observable projection: any run in which S never
       forwards, exits or cancels is, with the S steps and deliveries erased, again an execution (a signal-free
@@ -492,6 +506,69 @@ theorem tstp_window {s s' : St} {v : Nat} (hs : step s (.s (.time v)) = some s')
       simp [this]
     · simp [hlt]
   · simp at hd
+
+/-- C20, the clock as an input: the step of the signals thread that reads the clock (the INTR_TIME decision of
+    `_handle_sigint` and `_handle_sigtstp`, `last_intr = time(NULL)`, the instants read while listing) commutes with
+    moving the clock and `last_intr` by the same `k` seconds, for every `k`: no value of the clock is special -/
+theorem window_at_any_clock {s s' : St} {v : Nat} (k : Nat) (hs : step s (.s (.time v)) = some s') :
+    step (shiftClock k s) (.s (.time (v + k))) = some (shiftClock k s') ∧ (shiftClock k s').spc = s'.spc :=
+  ⟨step_time_shift k hs, rfl⟩
+
+/-- C20: the decision (abort or report for ^C, cancel or stop for ^Z) depends only on the DIFFERENCE of the two
+    stamps: two states in the same place of the same handler whose stamps differ by the same amount decide alike -/
+theorem decision_depends_on_difference_only {s1 s2 s1' s2' : St} {v1 v2 : Nat}
+    (h1 : step s1 (.s (.time v1)) = some s1') (h2 : step s2 (.s (.time v2)) = some s2')
+    (hpc : s1.spc = s2.spc) (hw : s1.spc = .intT ∨ s1.spc = .tstpT) (hd : s1.now - s1.last = s2.now - s2.last) :
+    s1'.spc = s2'.spc ∧
+    (s1.spc = .intT → s1'.spc = if past s1.now s1.last then .intT2 else .abLock) ∧
+    (s1.spc = .tstpT → s1'.spc = if past s1.now s1.last then .stopping else .cancLock) := by
+  have d1 := double_int_aborts h1
+  have d2 := double_int_aborts h2
+  rcases hw with hw | hw
+  · have hw2 : s2.spc = .intT := hpc ▸ hw
+    by_cases q : INTR < s1.now - s1.last
+    · have q2 : INTR < s2.now - s2.last := hd ▸ q
+      have r1 := d1.2.1 hw q
+      have r2 := d2.2.1 hw2 q2
+      simp [r1, r2, hw, past, q]
+    · have q2 : ¬ INTR < s2.now - s2.last := hd ▸ q
+      have r1 := d1.1 hw (by omega)
+      have r2 := d2.1 hw2 (by omega)
+      simp [r1, r2, hw, past, q]
+  · have hw2 : s2.spc = .tstpT := hpc ▸ hw
+    have t1 := tstp_window h1 hw
+    have t2 := tstp_window h2 hw2
+    by_cases q : INTR < s1.now - s1.last
+    · have q2 : INTR < s2.now - s2.last := hd ▸ q
+      have r1 := t1.2 q
+      have r2 := t2.2 q2
+      simp [r1, r2, hw, past, q]
+    · have q2 : ¬ INTR < s2.now - s2.last := hd ▸ q
+      have r1 := t1.1 (by omega)
+      have r2 := t2.1 (by omega)
+      simp [r1, r2, hw, past, q]
+
+/-- C20: the C expression `time(NULL) - last_intr > INTR_TIME`, evaluated in a signed type that holds both stamps
+    (`time_t`), is the model's test; through a `w`-bit integer it still is as long as the difference fits in `w` bits
+    (and not otherwise: the witnesses in Dsh/SignalsClock.lean: a 32-bit `int` at the instants 2^31, 2^32, 2^33) -/
+theorem c_subtraction_wide_enough (now last w : Nat) (h : last ≤ now) (hw : 0 < w) (hf : now - last < 2 ^ (w - 1)) :
+    decide (wrapTo w ((now : Int) - (last : Int)) > (INTR : Int)) = past now last := by
+  have hx : ((now : Int) - (last : Int)) = ((now - last : Nat) : Int) := by omega
+  have h2 : (((now - last : Nat) : Int)) < 2 ^ (w - 1) := by exact_mod_cast hf
+  have hp : (0 : Int) < 2 ^ (w - 1) := Int.pow_pos (by decide)
+  rw [wrapTo_fits w hw _ (by omega) (by omega)]
+  exact c_test_exact now last h
+
+/-- non-vacuity: the same ^C decision at clock 5 and at clock 2^32 + 5, three seconds after the last report -/
+example : ∀ s', sStep { (init .whileWait true true 1 1 false 5) with spc := .intT, last := 2 } (.time 5) = some s' →
+    sStep (shiftClock (2 ^ 32) { (init .whileWait true true 1 1 false 5) with spc := .intT, last := 2 }) (.time (5 + 2 ^ 32)) =
+      some (shiftClock (2 ^ 32) s') ∧ s'.spc = .intT2 := by
+  intro s' h
+  refine ⟨by rw [sStep_time_shift, h]; rfl, ?_⟩
+  simp only [sStep] at h
+  simp at h
+  obtain ⟨_, rfl⟩ := h
+  decide
 
 /-- C20: `_cancel_pending_threads` touches no worker and no counter; it changes only slots that are NEW or
     RCMD — slots whose host is not yet started or still connecting as far as the worker has recorded
